@@ -1,2 +1,3 @@
 import Paroxy.Props.C08
 import Paroxy.Props.C12
+import Paroxy.Props.C02
